@@ -143,7 +143,7 @@ def run_case(mod, src, tier, keep_events=False):
         except Violation as v:
             res.status = "violation"
             res.sig = v.sig
-            res.msg = v.msg
+            res.msg = ctx.clean(v.msg)
         except Discard as d:
             res.status = "discard"
             res.msg = str(d)
